@@ -9,6 +9,9 @@ THEOREMS = {
             "Backend.C06_flush_log_returns",
             "Backend.C06_flush_log_contract", "Backend.C06_nothing_unflushed_at_raise",
             "Backend.C06_pinned_order_violates", "Backend.C06_removed_logger_sink_not_flushed_unrepaired", "Backend.C06_removed_logger_sink_flushed",
+            "Backend.C06_erased_logger_sinks_flushed", "Backend.C06_unflushed_sink_reachable",
+            "Backend.C06_erased_logger_sink_never_flushed_unrepaired", "Backend.C06_erased_logger_sink_flushed",
+            "Obligations.backendB_flush_interval_structure", "Obligations.backendB_startC_f33",
             "Obligations.C06_extracted"],
     "C09": ["Backend.C09_reads_committed", "Backend.C09_drain_publishes", "Backend.C09_blocked_call_resumes", "Backend.C09_obs_ret1",
             "Backend.C09_call_after_drain_accepted", "Backend.C09_empty_queue_retry_granted", "Backend.C09_empty_queue_call_accepted",
@@ -29,3 +32,9 @@ MODULES["C09"] += ["QuillModel.Props.C09Progress"]
 THEOREMS["C09"] += ["Backend.C09_blocked_queue_drains", "Backend.C09_blocked_call_resumes_concurrent"]
 THEOREMS["C06"] += ["Backend.C06_flush_log_returns_concurrent_retry"]
 MODULES["C06"] += ["QuillModel.Props.C09Progress"]
+# lift round (w2_lifts): C05 on the observable event log (Props/C05Write.lean, helpers Backend/LiftOrder.lean)
+THEOREMS["C05"] += ["Backend.C05_writes_follow_pops", "Backend.C05_write_is_of_popped", "Backend.C05_write_order",
+                    "Backend.C05_write_order_at_sink", "Backend.C05_write_order_pairs", "Backend.PA.InvO.closed"]
+MODULES["C05"] += ["QuillModel.Props.C05Write"]
+THEOREMS["C06"] += ["Backend.C06_flush_log_returns_concurrent_total"]
+THEOREMS["C06"] += ["Backend.C06_flush_not_overtaken_grace0", "Backend.C06_flush_log_returns_concurrent_explicit_grace0"]
